@@ -4,6 +4,7 @@ package harness
 
 import (
 	"fmt"
+	"net"
 	"net/netip"
 	"testing"
 	"time"
@@ -31,7 +32,7 @@ type c16Rotation struct {
 	Rounds int   `json:"rounds"`
 }
 
-var c16Situations = []string{"tracked", "own", "router-global", "multicast-src", "offlan", "new"}
+var c16Situations = []string{"tracked", "own", "router-global", "multicast-src", "offlan", "new", "captured"}
 
 // c16Apply rewrites source MAC / IP of a generated frame for the situation.
 func c16Apply(w gen.World, b []byte, sit string) []byte {
@@ -64,7 +65,7 @@ func c16Apply(w gen.World, b []byte, sit string) []byte {
 		}
 	}
 	switch sit {
-	case "tracked", "new":
+	case "tracked", "new", "captured":
 		mac(w.Clients[1])
 		set4([4]byte{192, 168, 0, 77})
 		set6(netip.MustParseAddr("fe80::77").As16())
@@ -99,6 +100,11 @@ func c16Run(tb drv.TB, rec *drv.Rec, sub string, c c16Case) {
 	buf := make([]byte, packet.EthMaxSize)
 	n := copy(buf, c.Data)
 	in := buf[:n]
+	if c.Situation == "captured" && n >= 12 { // the station is known and in capture mode (Session.Capture) when the frame under test arrives
+		pre := make([]byte, packet.EthMaxSize)
+		s.Parse(pre[:copy(pre, c.Data)])
+		s.Capture(net.HardwareAddr(append([]byte(nil), c.Data[6:12]...)))
+	}
 	frame, err := s.Parse(in)
 	if err != nil {
 		if want.Lenient {
